@@ -140,7 +140,8 @@ func genScenario(r *lib.Rng, id int, kind string, mode string) *scenario {
 	for _, v := range installed {
 		s.addInstalled("core", s.plugin, v)
 	}
-	if r.Chance(2, 3) {
+	// a first installation happens next to plugins that work: their databases must keep starting
+	if len(installed) == 0 || r.Chance(2, 3) {
 		s.addInstalled("core", other, "1.0.0")
 		if r.Bool() {
 			s.addInstalled("core", other, "0.5.0")
@@ -159,6 +160,9 @@ func genScenario(r *lib.Rng, id int, kind string, mode string) *scenario {
 		pl := s.plugin
 		if d == 1 && s.dirs["plugins/core/octosql-plugin-"+other] && r.Bool() {
 			pl = other
+		}
+		if len(installed) == 0 && !(d == 1 && r.Chance(1, 4)) {
+			pl = other // the plugin being installed for the first time has no database yet (mostly)
 		}
 		// mostly constraints that an installed version satisfies, so that start-up works before the command
 		c := consPool[r.Intn(len(consPool))]
@@ -513,12 +517,22 @@ type probe struct {
 	dbsJS []interface{}
 	repos bool
 	ran   []string // version directory that ran, per database ("" if none)
+	panic string   // output of an invocation that panicked
+}
+
+func clip(s string, n int) string {
+	if len(s) > n {
+		return s[:n]
+	}
+	return s
 }
 
 func startCode(code int, out string) int {
 	switch {
 	case code == 0:
 		return 0
+	case strings.Contains(out, "panic:") || strings.Contains(out, "goroutine 1 ["):
+		return 7
 	case strings.Contains(out, "couldn't parse plugin"):
 		return 1
 	case strings.Contains(out, "couldn't list installed plugins"):
@@ -536,6 +550,9 @@ func runProbes(cli string, s *scenario, home string, fx *fixture) probe {
 	var pr probe
 	code, out := runCLI(cli, env, 60*time.Second, "SELECT 1")
 	pr.start = startCode(code, out)
+	if pr.start == 7 {
+		pr.panic = out
+	}
 	for i, d := range s.dbs {
 		marker := filepath.Join(home, fmt.Sprintf("marker-%d", i))
 		os.Remove(marker)
@@ -836,6 +853,12 @@ func run(f lib.Flags) error {
 			cf.Count("crash_points")
 			if res.pr.start != 0 {
 				cf.Count("start_failed_after_crash")
+			}
+			if res.pr.panic != "" {
+				cf.Violation(idx, "octosql panics at start-up after this kill: "+clip(strings.TrimSpace(res.pr.panic), 400), "")
+			}
+			if s.describe == "first installation of the plugin" && sp.k > 0 && sp.k < len(steps) {
+				cf.Count("first_installation_crash_points")
 			}
 			// finding class: re-installation, killed after the first removal of the old copy and before the rename,
 			// the version being one a configured database ran before
